@@ -347,6 +347,22 @@ def species_count_phase(chk):
             chk.violation(sigs, v, {"sc": sc, "cfgseed": cfgseed, "ndims": 3 if k % 2 else 2, "sigs": sigs})
 
 
+def class_count_phase(chk):
+    """menu lists every field exactly once whatever the NUMBER of entries of the fields table is (four to a line): 4, 5, 6, 8, 9, 10,
+    13, 17 fields of classes of their own."""
+    for k, nc in enumerate((4, 5, 6, 8, 9, 10, 13, 17)):
+        fields = ["density", "temp"] + ["q%02d" % i for i in range(nc - 2)]
+        for mode in ("default", "description"):
+            sc = {"fields": fields, "mode": mode, "sig": ["class-count", nc, mode], "expect": {"classes": [], "species": []}}
+            cfgseed = chk.rng.randrange(1 << 30) * 3
+            v = run_scenario(chk, sc, cfgseed, 3 if k % 2 else 2)
+            sigs = util.sig_str(["class-count", nc, mode])
+            chk.executed(sigs, True, sample={"classes": nc, "mode": mode})
+            chk.traces += 1
+            if v:
+                chk.violation(sigs, v, {"sc": sc, "cfgseed": cfgseed, "ndims": 3 if k % 2 else 2, "sigs": sigs})
+
+
 def option_sets_phase(chk):
     """MenuOpts.tla: every subset of menu's options on one generated plotfile; each display the set asks for must be in the output,
     line for line as that display alone prints it (multiset of non-blank lines)."""
@@ -440,3 +456,4 @@ def run(chk, replay):
     cli.phase(chk, "menu")
     option_sets_phase(chk)
     species_count_phase(chk)
+    class_count_phase(chk)
